@@ -197,6 +197,8 @@ def fragment(draw, max_atoms=5, constraints=True, molprefix=True, stereo=False):
 def _sym_choices(mm, v):
     s = mm.sym[v]
     out = [s, s, s, '$']
+    if mm.arom[v] and s in ('C', 'N', 'O', 'S'):
+        out += [s.lower(), s.lower()]          # lower-case symbol = aromatic atom of that element
     if mm.Z[v] > 1:
         out += ['X', 'heavy atom']
     if s in ('N', 'O', 'P', 'S'):
